@@ -55,6 +55,7 @@ Definition guard_int_accepts (c : str * integer_sp * str * option Z) : bool :=
 Definition int_over_limit (c : str * integer_sp * str * option Z) : bool :=
   let '(a, i, b, obs) := c in negb (int_limit_ok i).
 Definition agree_int_datatype (c : Z * str) : bool := str_eqb (int_datatype (fst c)) (snd c).
+Definition oracle_int_datatype (c : Z * str) : bool := xsd_integer_type_contains (snd c) (fst c).
 
 (* ---------------- bytes ---------------- *)
 Definition agree_bytes_deser (c : option str * str * option (list N)) : bool :=
@@ -225,11 +226,19 @@ Definition value_eqb (a b : value) : bool :=
 Definition agree_deserialize (c : kwargs * enum_env * str * list pytype * option value) : bool :=
   let '(kw, env, s, types, obs) := c in
   opt_eqb value_eqb (option_map snd (deserialize kw env s types)) obs.
-(* the priority oracle, judged on the implementation alone: given which candidate
-   types the implementation accepts one at a time (acc), the result for the
-   sorted list must be the result of the first accepting type in priority order *)
+(* the priority oracle, judged on the implementation alone with the documented
+   order of the specification: given what each candidate type gives on its own,
+   the result for the sorted candidates must be that of the first accepting type
+   in documented order.  Applies when every candidate is a documented type. *)
+Definition pytype_name (t : pytype) : option str := match t with TName n => Some n | _ => None end.
 Definition oracle_priority (c : list (pytype * option value) * option value) : bool :=
   let '(single, obs) := c in
-  let accepts (t : pytype) (_ : str) : option value :=
-      match find (fun r => pytype_eqb (fst r) t) single with Some r => snd r | None => None end in
-  opt_eqb value_eqb (option_map snd (deserialize_gen accepts [] (sort_types (map fst single)))) obs.
+  let names := map (fun r => pytype_name (fst r)) single in
+  if forallb (fun o => match o with Some n => existsb (str_eqb n) documented_priority | None => false end) names then
+    let cands := flat_map (fun o => match o with Some n => [n] | None => [] end) names in
+    let accepts (n : str) : option value :=
+        match find (fun r => pytype_eqb (fst r) (TName n)) single with Some r => snd r | None => None end in
+    opt_eqb value_eqb (choose_by_priority documented_priority cands accepts) obs
+  else true.
+Definition priority_case_applies (c : list (pytype * option value) * option value) : bool :=
+  forallb (fun r => match pytype_name (fst r) with Some n => existsb (str_eqb n) documented_priority | None => false end) (fst c).
